@@ -2,6 +2,7 @@ package main
 
 import (
 	"fmt"
+	"os"
 	"hash/crc32"
 	"math"
 	"strings"
@@ -53,7 +54,43 @@ func (ex *Exec) obligation(cond *Term, msg string, kind string) {
 	for _, n := range ex.nondets {
 		want = append(want, n.T)
 	}
+	for _, a := range ex.fpApps {
+		want = append(want, a)
+		want = append(want, a.Args...)
+	}
 	r, model := ex.sol.Check(ex.pc, neg, want)
+	if d := os.Getenv("VERIF_DUMP"); d != "" && r != Unsat {
+		os.WriteFile(fmt.Sprintf("%s/q%d.smt2", d, ex.sol.Stats.Queries), []byte("; "+msg+"\n"+ex.sol.Script(ex.pc, neg, false)), 0o644)
+	}
+	if r == Sat && len(ex.fpApps) > 0 && model != nil {
+		fv := func(t *Term) string {
+			v, ok := model[t]
+			if !ok {
+				if t.IsConst() {
+					v = t.C
+				} else {
+					return "?"
+				}
+			}
+			if t.S.K == SF32 {
+				return fmt.Sprint(math.Float32frombits(uint32(v)))
+			}
+			if t.S.K == SF64 {
+				return fmt.Sprint(math.Float64frombits(v))
+			}
+			return fmt.Sprint(int64(v))
+		}
+		for _, a := range ex.fpApps {
+			l := a.Name + "("
+			for i, x := range a.Args {
+				if i > 0 {
+					l += ", "
+				}
+				l += fv(x)
+			}
+			ex.tracef("uf %s) = %s", l, fv(a))
+		}
+	}
 	switch r {
 	case Unsat:
 		ex.res.Discharged++
@@ -712,6 +749,27 @@ func init() {
 		return nil, true
 	})
 	reg("time.Sleep", intrinsics["runtime.Gosched"])
+
+	// ---- clock stub: arbitrary non-decreasing instants (whole seconds) -------------------------------
+	reg("time.Now", func(ex *Exec, g *G, fn *ssa.Function, a []Value) (Value, bool) {
+		sec := ex.nondet("clock", BV(64))
+		lo := ex.intTerm(0)
+		if prev, ok := ex.ghost["clock"].(*Term); ok {
+			lo = prev
+		}
+		c := ex.ts.And(ex.ts.BvCmp(OBvSLe, lo, sec), ex.ts.BvCmp(OBvSLe, sec, ex.intTerm(1<<40)))
+		if ex.check(c) == Unsat {
+			panic(pathPruned{"clock"})
+		}
+		ex.addPC(c)
+		ex.ghost["clock"] = sec
+		ex.noteAssume("time.Now is a stub returning arbitrary non-decreasing whole-second instants in [0, 2^40] (Unix seconds)")
+		t := ex.newAgg(3)
+		t.E[0] = ex.ts.BVConst(64, 0)
+		t.E[1] = ex.ts.BvBin(OBvAdd, sec, ex.intTerm(62135596800))
+		t.E[2] = Ptr{}
+		return t, true
+	})
 
 	// ---- sync/atomic package-level functions -----------------------------------------------------
 	atomicLoad := func(ex *Exec, g *G, fn *ssa.Function, a []Value) (Value, bool) {
